@@ -72,7 +72,8 @@ StRepack(c) ==
   LET auth == IF c.user # <<>> /\ c.pass # <<>> THEN c.user \o <<58>> \o c.pass \o <<64>>
               ELSE IF c.user # <<>> THEN c.user \o <<64>>
               ELSE IF c.pass # <<>> THEN <<58>> \o c.pass \o <<64>> ELSE <<>>
-      netloc == auth \o c.host \o (IF c.port # <<>> THEN <<58>> \o c.port ELSE <<>>)
+      host == IF Has(c.host, 58) THEN <<91>> \o c.host \o <<93>> ELSE c.host       \* IPv6 literal: brackets back
+      netloc == auth \o host \o (IF c.port # <<>> THEN <<58>> \o c.port ELSE <<>>)
       path == IF c.path = <<>> /\ (c.query # <<>> \/ c.frag # <<>>) THEN <<47>> ELSE c.path
   IN Unsplit(c.scheme, netloc, path, c.query, c.frag)
 
